@@ -17,7 +17,9 @@ LEVEL = 'fault_enumeration'
 RULE = ('geometry (page size in {8,16,25,32,50,64,1024}, buffer pages 1..4/10, flash pages <= 24 or realistic 128/1024, '
         'every start page incl. override) x image length (1 .. three buffer-fulls + 1, every page and buffer multiple +-1) x '
         'both targets; flash-write reply scripts: all combinations of {answer, drop, negative} over the first attempts of the '
-        'first three write commands. distinct_nontrivial = distinct (geometry, start page, image length, reply script).')
+        'first three write commands; whole packages (zip with STM32 firmware, nRF51 firmware and/or nRF51 bootloader+softdevice) '
+        'through start_bootloader() + flash() on a two-target device whose nRF51 restarts into a bootloader reporting the new '
+        'soft device start page. distinct_nontrivial = distinct (geometry, start page, image length, reply script).')
 ASSUMPTIONS = ['bootloader protocol: 0x10 info, 0x12 mapping, 0x14 load buffer (page,u16 offset), 0x18 write flash '
                '(buffer page, flash page, count) answered by (target, 0x18, done, error)',
                'a retransmitted write-flash command re-executes the same copy (idempotent)']
